@@ -867,8 +867,23 @@ def run_C14(tier, rng, stats):
             cs.append(case(ev, 'eval', ph, '@'))
             cs.append(case(ev, 'eval', ph, '(@)'))
             cs.append(case(ev, 'eval', ph, '+@'))
+    # @ takes no part in implicit multiplication: @ next to every juxtaposition trigger / juxtaposition-capable operand must be Err
+    nj = []
+    for ev in EVS:
+        f = gen.F1[ev][0]
+        right = ['(3)', '2', '.5', '0.5', f + '(1)', '@', 'pi', 'e', 'π'] + (['⌊1⌋', '⌈1⌉'] if gen.HAS_FLOORBR[ev] else []) + (['i', '2i'] if ev == 'complex' else [])
+        left = ['2', '(3)', f + '(1)', '@', 'pi', 'e', '2²'] + (['3!'] if gen.HAS_BANG[ev] else []) + (['⌊1⌋'] if gen.HAS_FLOORBR[ev] else []) + (['i'] if ev == 'complex' else [])
+        ctxs = ['%s', '1+%s', '%s+1', '(%s)', '2*%s', '-%s', '%s^2'] + ([gen.FV[ev][0] + '(%s,1)', gen.FV[ev][0] + '(1,%s)'] if gen.FV[ev] else [gen.F2[ev][0] + '(%s,1)'])
+        ph = gen.ph_pool(ev)[3]
+        for cx in ctxs:
+            for r in right:
+                nj.append(case(ev, 'eval', ph, cx % ('@' + r)))
+            for l in left:
+                nj.append(case(ev, 'eval', ph, cx % (l + '@')))
+    cs += nj
+    njset = set(nj)
     stats['rule'] = ('expressions with 1..n occurrences of @ x the placeholder pool of each type (non-finite, -0.0, extreme integers, scaled decimals), compared with the same expression '
-                     'where @ is replaced by a bracketed literal of the same value; "@", "(@)", "+@" must return the placeholder bit for bit')
+                     'where @ is replaced by a bracketed literal of the same value; "@", "(@)", "+@" must return the placeholder bit for bit; @ next to every juxtaposition trigger / operand in 9 contexts must be Err')
     res = run_pairs('C14', pairs, stats)
     cases, outs, model = run_streams(cs, stats)
     merge(res, std_judge('C14', cases, outs, model))
@@ -876,6 +891,11 @@ def run_C14(tier, rng, stats):
         for c, x in zip(cases, impl):
             want = 'OK ' + (c[2] if not (c[0] == 'f64' and c[2].lower().startswith('7ff8')) else '7ff8000000000000')
             got = vlib.strip_ticks(x)
+            if c in njset:
+                if vlib.outcome_class(x) != 'ERR':
+                    res['violations'].insert(0, {'kind': 'placeholder-juxtaposed', 'cases': [list(c)], 'observed': got, 'expected': 'ERR',
+                                                 'why': '%r: @ took part in an implicit multiplication (must be rejected)' % dec_expr(c[3])})
+                continue
             if c[0] in ('f64', 'i64', 'number', 'decimal') and got != want and not (c[0] == 'decimal' and c[2].startswith('-0/')):
                 res['violations'].insert(0, {'kind': 'placeholder-changed', 'cases': [list(c)], 'observed': got, 'expected': want,
                                              'why': '@ did not evaluate to the placeholder itself'})
@@ -1239,6 +1259,20 @@ def run_C16(tier, rng, stats):
         # repeated expressions with changing placeholders, and failing inputs in between
         e = exprs[rng.below(12)] if rng.chance(1, 2) else rng.choice(exprs)
         hist.append(case(ev, 'eval', rng.choice(pool), e))
+    # consecutive calls with the same expression and placeholders that compare equal but are distinguishable
+    # (0.0 / -0.0, Integer(1) / Float(1.0), 1.0 / 1.00, NaN twice): a cache keyed by == would answer from the wrong entry
+    twins = {'f64': [(f2w(0.0), f2w(-0.0)), (f2w(-0.0), f2w(0.0)), (f2w(1.0), f2w(1.0)), (f2w(float('nan')), f2w(float('nan')))],
+             'number': [('I0', 'F' + f2w(0.0)), ('F' + f2w(0.0), 'F' + f2w(-0.0)), ('F' + f2w(-0.0), 'I0'), ('I1', 'F' + f2w(1.0)), ('F' + f2w(2.0), 'I2')],
+             'decimal': [('0/0', '-0/0'), ('-0/1', '0/1'), ('10/1', '1/0'), ('1/0', '100/2'), ('150/2', '15/1')],
+             'complex': [(f2w(0.0) + ',' + f2w(0.0), f2w(-0.0) + ',' + f2w(-0.0)), (f2w(1.0) + ',' + f2w(-0.0), f2w(1.0) + ',' + f2w(0.0))],
+             'i64': [('0', '0'), ('1', '1')]}
+    sens = {'f64': ['1/@', 'atan2(@,-1)', '@', '-@', 'sgn(@)', '@*1', 'sqrt(@)'], 'number': ['1/@', '@', '-@', '@*1', '@+0', 'atan2(@,-1)', '2^@'],
+            'decimal': ['@', '-@', '@*1', '@+0', '@/3', 'abs(@)'], 'complex': ['@', '1/@', 'sqrt(@)', '-@', 'ln(@-1)'], 'i64': ['@', '-@']}
+    for ev in EVS:
+        for e in sens[ev]:
+            for a, b in twins[ev]:
+                pos = rng.below(len(hist) + 1)
+                hist[pos:pos] = [case(ev, 'eval', a, e), case(ev, 'eval', b, e), case(ev, 'eval', a, ' ' + e)]
     lines = ['\t'.join(c) for c in hist]
     import subprocess
     res = empty()
